@@ -768,6 +768,12 @@ theorem controller_token_bound (c : HsCtrl) (U : List String) (reqs : List (Nat 
         rw [← h2]
         omega
 
+/-- the hotspot slot's dispatch (`HsCtrl.check`, called by `hsSlot` for every controller whose parameter is present) is `checkReject` for a
+QPS rule with the reject strategy: the step of `run_refines_buckets` is what the modelled slot chain runs -/
+theorem check_is_checkReject (c : HsCtrl) (now : Nat) (arg : String) (batch : Nat) (hm : c.rule.metric = .qps) (hs : c.rule.strategy = .reject) :
+    c.check now arg batch = c.checkReject now arg batch := by
+  unfold HsCtrl.check; rw [hm, hs]
+
 /-- non-vacuity of `controller_token_bound`'s premises: a fresh controller has seen no value, and a history over two values -/
 example : cellOf (HsCtrl.new { id := "h", metric := .qps, strategy := .reject, thr := 2, durSec := 1, maxCap := 2 }) "a" = none ∧
     TimesFrom 0 [(0, "a", 1), (5, "b", 1), (5, "a", 2)] := ⟨rfl, by simp [TimesFrom]⟩
